@@ -101,8 +101,8 @@ def check_backoff(params, ns, out, stats, fps):
 
 def check_next(ts, now, p, du, out, stats, fps, sched=None):
     """`sched`: the scheduled time the message carries for its current run (next_execution_time), if any.
-    The statement speaks of "its time base" without fixing it: the creation timestamp, the scheduled time of the
-    current run and deferred_until are all accepted as the base of the period grid."""
+    The statement speaks of "its time base" without fixing it: the scheduled time of the current run and deferred_until are
+    both accepted as the base of the period grid when the message carries them, the creation timestamp otherwise."""
     from repid.data._parameters import DelayProperties, Parameters
     from rv.sim.clock import pin
 
@@ -126,7 +126,10 @@ def check_next(ts, now, p, du, out, stats, fps, sched=None):
     if nxt is None:
         out.append(_viol("next_window", "none", ctx))
         return
-    bases = [b for b in (ts, sched, du) if b is not None]
+    # the grid's base: the documentation says a job with deferred_until "recurrently continues" from there, and a rescheduled
+    # message continues from the time its current run was scheduled for; the creation timestamp is the base only when the
+    # message carries neither
+    bases = [b for b in (sched, du) if b is not None] or [ts]
     if du is not None and nxt == du:
         out.append(_viol("deferred_until", "stale", ctx))
         return
